@@ -38,6 +38,8 @@ def obligations(tier):
                     clause="cursor on the label of a record-pattern field: the label is reported with the type of that field; behind the label of `name = pattern`: the search descends into the pattern; otherwise nothing is reported"))
     out.append(dict(engine="verus", unit="completion", function="Suggest::on_pattern::record_value_field", name="C20/completion/Suggest_on_pattern_record_value_field", source=COMP + "::Suggest::on_pattern (arm Pattern::Record, PatternField::Value)",
                     clause="a record-pattern field `name = pattern` brings exactly the variables of the nested pattern into scope (not the label); a shorthand field binds its label"))
+    out.append(dict(engine="verus", unit="completion", function="signature_help::argument_index", name="C20/completion/signature_help_argument_index", source=COMP + "::signature_help (the computation of the argument index)",
+                    clause="total for every argument list including the empty one (applications with only implicit arguments); an index is reported iff the cursor is at or behind the start of the first argument"))
     out.append(dict(engine="verus", unit="completion", function="Suggest::on_pattern::As", name="C20/completion/Suggest_on_pattern_as", source=COMP + "::Suggest::on_pattern (arm Pattern::As)",
                     clause="binding the name of an as-pattern never panics, also when the pattern under it does not type check (only the total try_type_of may be used: env_type_of has the precondition `well typed`)"))
     ns = [1, 2, 3] if tier == "quick" else [1, 2, 3, 4]
